@@ -115,9 +115,22 @@ def _single_expr(h) -> Optional[ast.expr]:
     """the helper as one expression: `return e`, or `if c: return a` (else/then) `return b` -> `a if c else b`"""
     body = _body_wo_doc(h)
 
+    def max_uses(e, name) -> int:
+        if isinstance(e, ast.IfExp):
+            return max_uses(e.test, name) + max(max_uses(e.body, name), max_uses(e.orelse, name))
+        return sum(1 for x in ast.walk(e) if isinstance(x, ast.Name) and x.id == name)
+
     def expr_of(stmts) -> Optional[ast.expr]:
         if len(stmts) == 1 and isinstance(stmts[0], ast.Return):
             return stmts[0].value if stmts[0].value is not None else ast.Constant(value=None)
+        # a leading temporary, bound once and used at most once on any evaluation: `kw = rq._asdict(); return f(kw)`
+        if len(stmts) > 1 and isinstance(stmts[0], ast.Assign) and len(stmts[0].targets) == 1 and isinstance(stmts[0].targets[0], ast.Name):
+            nm = stmts[0].targets[0].id
+            stores = sum(1 for s_ in body for x in ast.walk(s_) if isinstance(x, ast.Name) and x.id == nm and isinstance(x.ctx, ast.Store))
+            rest = expr_of(stmts[1:])
+            if rest is not None and stores == 1 and max_uses(rest, nm) <= 1 and not any(isinstance(x, (ast.Lambda, ast.ListComp, ast.GeneratorExp, ast.DictComp, ast.SetComp)) for x in ast.walk(rest)):
+                return _Rename({nm: stmts[0].value}).visit(clone(rest))
+            return None
         if stmts and isinstance(stmts[0], ast.If):
             a = expr_of(stmts[0].body)
             rest = stmts[0].orelse if stmts[0].orelse else stmts[1:]
@@ -129,6 +142,39 @@ def _single_expr(h) -> Optional[ast.expr]:
         return None
 
     return expr_of(body)
+
+
+def _fold_const_tests(e):
+    """conditional expressions whose test is a comparison of constants (`'bankid' is None` after a constant argument was
+    substituted for a parameter) are replaced by the arm that is evaluated"""
+
+    class T(ast.NodeTransformer):
+        def visit_IfExp(self, node):
+            self.generic_visit(node)
+            t = node.test
+            neg = False
+            if isinstance(t, ast.UnaryOp) and isinstance(t.op, ast.Not):
+                t, neg = t.operand, True
+            val = None
+            if isinstance(t, ast.Compare) and len(t.ops) == 1 and isinstance(t.left, ast.Constant) and isinstance(t.comparators[0], ast.Constant):
+                a, b = t.left.value, t.comparators[0].value
+                if isinstance(t.ops[0], ast.Is):
+                    val = (a is b) if (a is None or b is None) else None
+                elif isinstance(t.ops[0], ast.IsNot):
+                    val = (a is not b) if (a is None or b is None) else None
+                elif isinstance(t.ops[0], ast.Eq):
+                    val = a == b
+                elif isinstance(t.ops[0], ast.NotEq):
+                    val = a != b
+            elif isinstance(t, ast.Constant):
+                val = bool(t.value)
+            if val is None:
+                return node
+            if neg:
+                val = not val
+            return node.body if val else node.orelse
+
+    return T().visit(e)
 
 
 def _bind_args(h, call: ast.Call, skip_first: bool) -> Optional[Dict[str, ast.expr]]:
@@ -253,6 +299,71 @@ class _RetToBreak(ast.NodeTransformer):
         return out
 
 
+class _NotALadder(Exception):
+    pass
+
+
+def _own_breaks(st) -> bool:
+    """does the statement contain a break that belongs to the enclosing (one-shot) loop?"""
+    if isinstance(st, ast.Break):
+        return True
+    if isinstance(st, (ast.For, ast.While, ast.FunctionDef, ast.ClassDef, ast.Lambda)):
+        # breaks inside an inner loop belong to that loop; its else-arm could break the outer one - not generated
+        return any(_own_breaks(x) for x in getattr(st, "orelse", []) or [])
+    for fld in ("body", "orelse", "finalbody"):
+        for x in getattr(st, fld, []) or []:
+            if isinstance(x, ast.stmt) and _own_breaks(x):
+                return True
+    for h in getattr(st, "handlers", []) or []:
+        if any(_own_breaks(x) for x in h.body):
+            return True
+    return False
+
+
+def _terminates(block) -> bool:
+    if not block:
+        return False
+    last = block[-1]
+    if isinstance(last, (ast.Break, ast.Raise, ast.Return)):
+        return True
+    if isinstance(last, ast.If) and last.orelse:
+        return _terminates(last.body) and _terminates(last.orelse)
+    return False
+
+
+def _structure_one_shot(stmts, depth: int = 0):
+    """the body of `while True: ...; break` whose breaks are the ends of if-arms, rewritten as nested if/else without the
+    loop (statements after a terminating arm move into the other arm).  Raises _NotALadder for any other shape."""
+    if depth > 12:
+        raise _NotALadder()
+    out = []
+    for i, st in enumerate(stmts):
+        if isinstance(st, ast.Break):
+            return out
+        if isinstance(st, (ast.Raise, ast.Return)):
+            out.append(st)
+            return out
+        if isinstance(st, ast.Continue):
+            raise _NotALadder()
+        if isinstance(st, ast.If) and (_own_breaks(st) or _terminates(st.body) or _terminates(st.orelse)):
+            rest = list(stmts[i + 1:])
+            bt, et = _terminates(st.body), _terminates(st.orelse)
+            if not bt and not et and not _own_breaks(st):
+                out.append(st)
+                continue
+            nb = _structure_one_shot(st.body if bt else list(st.body) + [clone(r) for r in rest], depth + 1)
+            ne = _structure_one_shot(st.orelse if et else list(st.orelse) + [clone(r) for r in rest], depth + 1)
+            new_if = ast.If(test=st.test, body=nb or [ast.Pass()], orelse=ne)
+            ast.copy_location(new_if, st)
+            out.append(new_if)
+            return out
+        if _own_breaks(st):
+            raise _NotALadder()  # a break under try / with / match: keep the loop form
+        out.append(st)
+    # fell off the end without a break: the generated block always ends in one
+    raise _NotALadder()
+
+
 def clone_store(t):
     c = clone(t)
     for x in ast.walk(c):
@@ -350,6 +461,9 @@ def inline(fn, resolver: Callable[[ast.Call], Optional[Tuple[ast.FunctionDef, Op
     """copy of fn with eligible helper calls inlined.  resolver(call) -> (helper FunctionDef, receiver name or None).
     `keep(name)` may veto inlining of a helper (rules that look the helper up by name keep it as a call)."""
     new = method_values_to_calls(copy_fn(fn))
+    # a helper called in an arm of a conditional expression (`x = a if c else self._h(..)`) is reachable for inlining once
+    # the assignment is an if statement (canonical() makes it one afterwards anyway)
+    new = ifexp_assignments_to_if(new)
     for _ in range(depth):
         changed = _inline_once(new, resolver, keep)
         if not changed:
@@ -488,7 +602,21 @@ def _inline_once(fn, resolver, keep) -> bool:
                     wbody.append(ast.Break())
                     w = ast.While(test=ast.Constant(value=True), body=wbody, orelse=[])
                     ast.copy_location(w, st)
-                    out.extend(prelude + [w])
+                    # a helper whose early returns all sit in if-arms is an if/else ladder: say so, instead of a one-shot loop
+                    for s_ in wbody:
+                        for x_ in ast.walk(s_):
+                            if isinstance(x_, (ast.stmt, ast.expr)) and not hasattr(x_, "lineno"):
+                                ast.copy_location(x_, st)
+                    try:
+                        ladder = _structure_one_shot(wbody)
+                    except _NotALadder:
+                        ladder = None
+                    if ladder is not None:
+                        for s_ in ladder:
+                            ast.fix_missing_locations(ast.copy_location(s_, st) if not hasattr(s_, "lineno") else s_)
+                        out.extend(prelude + ladder)
+                    else:
+                        out.extend(prelude + [w])
                     changed = True
                     continue
             out.append(st)
@@ -535,7 +663,7 @@ def _inline_once(fn, resolver, keep) -> bool:
             if recv is not None and first is not None and first not in bound:
                 mapping[first] = recv
             changed = True
-            return ast.copy_location(_Rename(mapping).visit(clone(e)), node)
+            return ast.copy_location(_fold_const_tests(_Rename(mapping).visit(clone(e))), node)
 
     ExprInline().visit(fn)
     return changed
@@ -699,6 +827,7 @@ def expand_starstar_dicts(fn):
     no later mutation) -> f(k=v, ...)"""
     binds = {}
     muts = set()
+    mutkeys = {}
     for st in ast.walk(fn):
         if isinstance(st, ast.Assign) and len(st.targets) == 1 and isinstance(st.targets[0], ast.Name) and isinstance(st.value, ast.Dict):
             binds.setdefault(st.targets[0].id, []).append(st.value)
@@ -710,7 +839,12 @@ def expand_starstar_dicts(fn):
         elif isinstance(st, ast.AnnAssign) and isinstance(st.target, ast.Name) and isinstance(st.value, ast.Dict):
             binds.setdefault(st.target.id, []).append(st.value)
         if isinstance(st, ast.Subscript) and isinstance(st.ctx, (ast.Store, ast.Del)) and isinstance(st.value, ast.Name):
-            muts.add(st.value.id)
+            if isinstance(st.ctx, ast.Store) and isinstance(st.slice, ast.Constant) and isinstance(st.slice.value, str):
+                # one key re-assigned later (`opts["newfileuid"] = ...`, possibly under a condition): that key's value
+                # is no longer the literal's, the other keys' values are
+                mutkeys.setdefault(st.value.id, set()).add(st.slice.value)
+            else:
+                muts.add(st.value.id)
         if isinstance(st, ast.Call) and isinstance(st.func, ast.Attribute) and st.func.attr in ("update", "pop", "setdefault", "clear") and isinstance(st.func.value, ast.Name):
             muts.add(st.func.value.id)
 
@@ -729,7 +863,11 @@ def expand_starstar_dicts(fn):
                         new_kw.extend(k.value.keywords)
                         continue
                 if d is not None and all(isinstance(x, ast.Constant) and isinstance(x.value, str) for x in d.keys):
-                    new_kw.extend(ast.keyword(arg=x.value, value=v) for x, v in zip(d.keys, d.values))
+                    mk_ = mutkeys.get(k.value.id, set()) if isinstance(k.value, ast.Name) else set()
+                    if mk_ - {x.value for x in d.keys}:
+                        new_kw.append(k)  # a key added later: the set of keywords is not the literal's
+                        continue
+                    new_kw.extend(ast.keyword(arg=x.value, value=(v if x.value not in mk_ else ast.Subscript(value=ast.Name(id=k.value.id, ctx=ast.Load()), slice=ast.Constant(value=x.value), ctx=ast.Load()))) for x, v in zip(d.keys, d.values))
                 else:
                     new_kw.append(k)
             node.keywords = new_kw
@@ -752,6 +890,105 @@ def getattr_consts_to_attributes(fn):
             return node
 
     T().visit(fn)
+    ast.fix_missing_locations(fn)
+    return _set_parents(fn)
+
+
+def setattr_consts_to_assignments(fn):
+    """in place: the statement `setattr(x, '<identifier>', v)` -> `x.<identifier> = v`"""
+
+    class T(ast.NodeTransformer):
+        def visit_Expr(self, node):
+            c = node.value
+            if isinstance(c, ast.Call) and isinstance(c.func, ast.Name) and c.func.id == "setattr" and len(c.args) == 3 and not c.keywords \
+                    and isinstance(c.args[1], ast.Constant) and isinstance(c.args[1].value, str) and c.args[1].value.isidentifier():
+                tgt = ast.Attribute(value=c.args[0], attr=c.args[1].value, ctx=ast.Store())
+                return ast.copy_location(ast.Assign(targets=[tgt], value=c.args[2]), node)
+            return node
+
+    T().visit(fn)
+    ast.fix_missing_locations(fn)
+    return _set_parents(fn)
+
+
+def _known_not_none(e) -> bool:
+    if isinstance(e, ast.Constant):
+        return e.value is not None
+    if isinstance(e, (ast.Tuple, ast.List, ast.Dict, ast.Set, ast.JoinedStr, ast.ListComp, ast.DictComp, ast.SetComp)):
+        return True
+    if isinstance(e, ast.Call):
+        if isinstance(e.func, ast.Attribute) and e.func.attr in ("index", "find", "count", "lower", "upper", "strip", "format", "join", "split"):
+            return True
+        if isinstance(e.func, ast.Name) and e.func.id in ("len", "int", "str", "bool", "list", "tuple", "dict", "set", "sorted"):
+            return True
+    return False
+
+
+def thread_sentinel_tests(fn):
+    """in place: an if statement whose arms end by binding a name, directly followed by a test of that name against None,
+
+        if c: x = <value>            if c: x = <value>; [<not-None arm of the test>]
+        else: ...; x = None     ->   else: ...; <None arm of the test>
+        if x is None: <A> [else: <B>]
+
+    - the arm that binds the constant None continues with the test's None arm, an arm that binds a value known not to be
+    None (an .index() / len() result, a literal) with the other arm, any other arm keeps the whole test.  A None store that
+    is then dead (the arm leaves the function and never reads the name) is dropped, so the name has ONE definition again.
+    This is what a helper that signals `not found` by returning None looks like once it is inlined."""
+
+    def last_bind(arm, name):
+        if arm and isinstance(arm[-1], ast.Assign) and len(arm[-1].targets) == 1 and isinstance(arm[-1].targets[0], ast.Name) and arm[-1].targets[0].id == name:
+            return arm[-1].value
+        return None
+
+    def leaves(block):
+        return bool(block) and isinstance(block[-1], (ast.Return, ast.Raise, ast.Continue, ast.Break))
+
+    def do_block(stmts):
+        out = []
+        i = 0
+        while i < len(stmts):
+            st = stmts[i]
+            for fld in ("body", "orelse", "finalbody"):
+                sub = getattr(st, fld, None)
+                if isinstance(sub, list) and sub and isinstance(sub[0], ast.stmt) and not isinstance(st, (ast.FunctionDef, ast.ClassDef)):
+                    setattr(st, fld, do_block(sub))
+            for h in getattr(st, "handlers", []) or []:
+                h.body = do_block(h.body)
+            nxt = stmts[i + 1] if i + 1 < len(stmts) else None
+            done = False
+            if isinstance(st, ast.If) and st.orelse and isinstance(nxt, ast.If):
+                t = nxt.test
+                name = pol = None
+                if isinstance(t, ast.Compare) and len(t.ops) == 1 and isinstance(t.left, ast.Name) and isinstance(t.comparators[0], ast.Constant) and t.comparators[0].value is None and isinstance(t.ops[0], (ast.Is, ast.IsNot)):
+                    name, pol = t.left.id, isinstance(t.ops[0], ast.Is)
+                if name is not None:
+                    vb, ve = last_bind(st.body, name), last_bind(st.orelse, name)
+                    if vb is not None and ve is not None and any(isinstance(v, ast.Constant) and v.value is None for v in (vb, ve)):
+                        none_arm = nxt.body if pol else nxt.orelse
+                        some_arm = nxt.orelse if pol else nxt.body
+
+                        def cont(arm, v):
+                            if isinstance(v, ast.Constant) and v.value is None:
+                                tail = [clone(s_) for s_ in none_arm]
+                                if leaves(tail) and not any(isinstance(x, ast.Name) and x.id == name for s_ in tail for x in ast.walk(s_)):
+                                    arm = arm[:-1]  # the None store is dead
+                                return arm + tail
+                            if _known_not_none(v):
+                                return arm + [clone(s_) for s_ in some_arm]
+                            return arm + [clone(nxt)]
+
+                        st.body = cont(list(st.body), vb) or [ast.Pass()]
+                        st.orelse = cont(list(st.orelse), ve)
+                        out.append(st)
+                        i += 2
+                        done = True
+            if not done:
+                out.append(st)
+                i += 1
+        return out
+
+    fn.body = do_block(fn.body)
     ast.fix_missing_locations(fn)
     return _set_parents(fn)
 
@@ -811,9 +1048,12 @@ def next_loops_to_for(fn):
 
 def canonical(fn, resolver=None, keep=None, depth=2):
     new = inline(fn, resolver, depth, keep) if resolver is not None else copy_fn(fn)
+    if resolver is not None:
+        new = thread_sentinel_tests(new)
     new = next_loops_to_for(new)
     new = loops_to_comprehensions(new)
     new = ifexp_assignments_to_if(new)
     new = formats_to_fstrings(new)
     new = getattr_consts_to_attributes(new)
+    new = setattr_consts_to_assignments(new)
     return expand_starstar_dicts(new)
